@@ -27,6 +27,50 @@ func buildCLI(s *scratch) (string, error) {
 	return bin, nil
 }
 
+// buildClockCLI builds the tool a second time, from a copy of the tree in which only the clock calls are redirected
+// (simrewrite -clockonly): invocations "at" a simulated time run this binary with VERIF_CLOCK_UNIX set.
+func buildClockCLI(s *scratch) (string, error) {
+	simDir := filepath.Join(verifDir, "sim")
+	if d := os.Getenv("VERIF_SIM"); d != "" {
+		simDir = d
+	}
+	binDir := filepath.Join(verifDir, "bin")
+	if d := os.Getenv("VERIF_BIN"); d != "" {
+		binDir = d
+	}
+	env := append(os.Environ(), "GOFLAGS=-mod=mod", "GOPROXY=off", "GOSUMDB=off", "GOTOOLCHAIN=local")
+	rw := filepath.Join(binDir, "simrewrite")
+	if st, err := os.Stat(rw); err != nil || func() bool {
+		src, e2 := os.Stat(filepath.Join(simDir, "tools", "simrewrite", "main.go"))
+		return e2 == nil && src.ModTime().After(st.ModTime())
+	}() {
+		cmd := exec.Command("go", "build", "-o", rw, "./tools/simrewrite")
+		cmd.Dir, cmd.Env = simDir, env
+		if out, err := cmd.CombinedOutput(); err != nil {
+			return "", fmt.Errorf("building simrewrite: %v\n%s", err, out)
+		}
+	}
+	dst := filepath.Join(s.dir, "clockrepo")
+	if out, err := exec.Command(rw, "-src", repoDir(), "-dst", dst, "-clockonly").CombinedOutput(); err != nil {
+		return "", fmt.Errorf("simrewrite -clockonly: %v\n%s", err, out)
+	}
+	gm, err := os.ReadFile(filepath.Join(dst, "go.mod"))
+	if err != nil {
+		return "", err
+	}
+	gm = append(gm, []byte("\nreplace verifsim/simsync => "+filepath.Join(simDir, "simsync")+"\n")...)
+	if err := os.WriteFile(filepath.Join(dst, "go.mod"), gm, 0o644); err != nil {
+		return "", err
+	}
+	bin := filepath.Join(s.dir, "protoc-go-valid.clock")
+	cmd := exec.Command("go", "build", "-o", bin, ".")
+	cmd.Dir, cmd.Env = dst, env
+	if out, err := cmd.CombinedOutput(); err != nil {
+		return "", fmt.Errorf("%v\n%s", err, out)
+	}
+	return bin, nil
+}
+
 type e3item struct {
 	idx  uint64
 	plan *e3.Plan
@@ -50,6 +94,11 @@ func runE3(prop, tier string, seed uint64) int {
 	if err != nil {
 		return trouble("building the CLI from %s failed: %v", repoDir(), err)
 	}
+	clockCLI, err := buildClockCLI(s)
+	if err != nil {
+		return trouble("building the CLI with a redirected clock from %s failed: %v", repoDir(), err)
+	}
+	e3.ClockCLI = clockCLI
 	buildS := time.Since(start).Seconds()
 	tree := treeHash(repoDir())
 	fmt.Printf("vcheck: property=%s tier=%s VERIF_SEED=%d tree=%s engine=%s build=%.1fs\n", prop, tier, seed, tree, e3.EngineName, buildS)
@@ -322,6 +371,11 @@ func replayE3(path string) int {
 	cli, err := buildCLI(s)
 	if err != nil {
 		return trouble("building the CLI failed: %v", err)
+	}
+	if clockCLI, err := buildClockCLI(s); err != nil {
+		return trouble("building the CLI with a redirected clock from %s failed: %v", repoDir(), err)
+	} else {
+		e3.ClockCLI = clockCLI
 	}
 	o := e3.RunPlan(cli, filepath.Join(s.dir, "root"), e3.NewSoloCache(cli, filepath.Join(s.dir, "solo")), p)
 	hash := fmt.Sprintf("%016x", o.Hash)
